@@ -112,6 +112,129 @@ def word_eval(t, W, w):
     return None
 
 
+def arena_bounds(ck, F, prefix='C03'):
+    """The bounds of arena::allocate, decided in closed form for every length; borrowed by C05 and C19 under their own prefix
+    (a header written past its block overwrites a neighbouring object: an earlier String's bytes, or memory nobody owns)."""
+    R3 = ck.rule(f'{prefix}.arena-bounds', 'the granule count suffices for header + n bytes for every n, the in-pool path is guarded by the '
+                 'remaining count, the fresh-pool path is reached only when the string fits a pool, the oversize block is large enough', floor=5)
+    af = F.need_fn(ALLOC)
+    S4 = Sym(F, opaque=lambda fid: F.fn.get(fid) is None, max_depth=20)
+    outs = S4.run(af['id'])
+    headersz = const_of(F, 'ipr::util::string::arena::headersz')
+    bufsz = const_of(F, 'ipr::util::string::arena::bufsz')
+    poolsz = const_of(F, 'ipr::util::string::arena::poolsz')
+    pad = const_of(F, 'ipr::util::string::padding_count')
+    if None in (headersz, bufsz, poolsz, pad):
+        raise AnalysisBroken(f'arena constants not folded: headersz={headersz} bufsz={bufsz} poolsz={poolsz} padding={pad}')
+    srec = F.need_rec('ipr::util::string')
+    fields = [(fl['name'], fl['t']) for fl in srec['fields']]
+    if len(fields) != 2 or fields[0][1] != 'long' or '[' not in fields[1][1]:
+        raise AnalysisBroken(f'layout of util::string changed (a long length followed by the inline bytes expected): {fields}')
+    off_data = 8                       # sizeof(long): data follows length (char8_t has alignment 1)
+    prec = F.need_rec('ipr::util::string::arena::pool')
+    pf = [(fl['name'], fl['t']) for fl in prec['fields']]
+    if len(pf) != 2 or not pf[0][1].rstrip().endswith('*') or '[' not in pf[1][1]:
+        raise AnalysisBroken(f'layout of arena::pool changed (a link followed by the header storage expected): {pf}')
+    F_STORAGE = pf[1][0]
+    F_NEXT = F.role_field('ipr::util::string::arena', lambda fl: fl['t'].replace('ipr::util::', '').rstrip() in ('string *', 'ipr::util::string *') or fl['t'].rstrip().endswith('string *'), 'next free header')
+    off_storage = 8
+    ck.extra['constants'] = {'headersz': headersz, 'bufsz': bufsz, 'poolsz': poolsz, 'padding_count': pad, 'offsetof(data)': off_data}
+    NH = ('fld', ('sym', 'this'), F_NEXT)
+
+    def le_facts(conds):
+        """(lhs, rhs, strict) with lhs <= rhs (or <) known on the path, whatever way the test was written."""
+        out = []
+        for c, val in conds:
+            if not (isinstance(c, tuple) and c and c[0] == 'op' and c[1] in ('<=', '<', '>=', '>')):
+                continue
+            op, x, y = c[1], c[2], c[3]
+            if not val:
+                op = {'<=': '>', '<': '>=', '>=': '<', '>': '<='}[op]
+            if op in ('>=', '>'):
+                x, y, op = y, x, {'>=': '<=', '>': '<'}[op]
+            out.append((x, y, op == '<'))
+        return out
+
+    # the in-pool path: nothing allocated, the old next_header returned, next_header advanced by the granule count
+    rets = [(st, v) for st, k, v in outs if k == 'return']
+    if len(rets) != len(outs):
+        ck.fail(R3, 'no-throw', 'arena::allocate can throw on a path', loc=af['loc'], fn=af['id'])
+    inpool = [(st, v) for st, v in rets if not any(named_call(t, 'operator new') for t in subterms(v))
+              and not any(named_call(t, 'operator new') for kv in st.symstore.items() for x in kv for t in subterms(x))]
+    if len(inpool) > 1:
+        # a path guarded by `granule count <= K` for a constant K below the smallest possible count is never taken
+        # (e.g. `remaining is 0 when there is no pool yet`): m = (n + c1)/d + c2 >= c2 for every n >= 0
+        def infeasible(st):
+            for x, y, strict in le_facts(st.conds):
+                gx = granules(x, N)
+                ly = linear(y, N)
+                if gx is not None and ly is not None and ly[0] == 0 and (ly[1] - (1 if strict else 0)) < gx[2]:
+                    return True
+            return False
+        inpool = [(st, v) for st, v in inpool if not infeasible(st)]
+        rets = [(st, v) for st, v in rets if not infeasible(st)]
+    if len(inpool) != 1:
+        raise AnalysisBroken(f'arena::allocate has {len(inpool)} paths that allocate nothing (1 expected)')
+    st0, v0 = inpool[0]
+    nh0 = st0.symstore.get(NH)
+    mterm = nh0[3] if isinstance(nh0, tuple) and nh0[0] == 'op' and nh0[1] == '+' and nh0[2] == NH else None
+    g = granules(mterm, N) if mterm is not None else None
+    if g is None:
+        raise AnalysisBroken('the in-pool path does not advance next_header by a granule count of the form (n + c1)/d + c2: '
+                             + (contracts.render(nh0, st0, {}) if nh0 else 'next_header unchanged'))
+    c1, d, c2 = g
+    ck.extra['granule_formula'] = f'm = (n + {c1})/{d} + {c2}'
+    ck.check(R3, 'granules-suffice', d == headersz and c1 >= 0 and d * c2 + c1 - (d - 1) >= off_data,
+             f'm = (n+{c1})/{d}+{c2} granules of {headersz} bytes: m*{d} >= n + {d * c2 + c1 - (d - 1)} but header+data need n + {off_data} '
+             f'(for every n: floor((n+c1)/d) >= (n+c1-(d-1))/d)', loc=af['loc'], fn=af['id'], detail={'c1': c1, 'd': d, 'c2': c2})
+    guards = [(x, y, strict) for x, y, strict in le_facts(st0.conds) if x == mterm]
+    okrem, txt = False, 'no test of the granule count against the remaining count'
+    for x, rem, strict in guards:
+        txt = contracts.render(rem, st0, {})
+        okrem = okrem or (rem[0] == 'op' and rem[1] == '-' and rem[3] == NH and F_STORAGE in txt and
+                          (linear(rem[2][3], N) == (0, bufsz) if rem[2][0] == 'op' else False))
+    ck.check(R3, 'in-pool', okrem and v0 == NH,
+             f'in-pool path: the granule count is bounded by {txt}; returns {contracts.render(v0, st0, {})}', loc=af['loc'], fn=af['id'])
+    seen = {'in-pool'}
+    for st, v in rets:
+        if (st, v) == inpool[0]:
+            continue
+        news = list({t for t in subterms(v) if named_call(t, 'operator new')})
+        if len(news) != 1:
+            ck.fail(R3, 'allocating path', f'a path of allocate returns {contracts.render(v, st, {})}, not storage of one fresh block',
+                    loc=af['loc'], fn=af['id'])
+            continue
+        sz = linear(news[0][3][0], N)
+        if sz is None:
+            raise AnalysisBroken('size of a fresh block is not linear in n: ' + contracts.render(news[0][3][0], st, {}))
+        # bounds on n known on this path
+        ub = [(linear(y, N)[1] - (1 if strict else 0)) for x, y, strict in le_facts(st.conds) if x == N and linear(y, N) and linear(y, N)[0] == 0]
+        lb = [(linear(x, N)[1] + (1 if strict else 0)) for x, y, strict in le_facts(st.conds) if y == N and linear(x, N) and linear(x, N)[0] == 0]
+        returns_storage = v[0] == 'fld' and v[2] == F_STORAGE and v[1] == ('deref', news[0])
+        if sz[0] == 0:
+            kind = 'fresh-pool'
+            seen.add(kind)
+            T = min(ub) if ub else None
+            nh = st.symstore.get(NH)
+            adv = isinstance(nh, tuple) and nh[0] == 'op' and nh[1] == '+' and nh[3] == mterm and nh[2] == v
+            ok = T is not None and (T + c1) // d + c2 <= bufsz and sz[1] >= off_storage + bufsz * headersz and returns_storage
+            ck.check(R3, kind, ok and adv,
+                     f'fresh-pool path (n <= {T if T is not None else "unbounded"}): needs m <= {(T + c1) // d + c2 if T is not None else "?"} of the '
+                     f'{bufsz} granules of a pool of {sz[1]} bytes; returns the storage of the new pool={returns_storage}; next_header advanced by m={adv}',
+                     loc=af['loc'], fn=af['id'])
+        else:
+            kind = 'oversize'
+            seen.add(kind)
+            need_extra = off_storage + off_data
+            ok = sz[0] >= 1 and sz[1] >= need_extra - (sz[0] - 1) * (min(lb) if lb else 0) and returns_storage
+            ck.check(R3, kind, ok,
+                     f'oversize path (n >= {min(lb) if lb else "?"}): block of {sz[0]}*n + {sz[1]} bytes, link + header + data need n + {need_extra}; '
+                     f'returns the storage of the new block={returns_storage}', loc=af['loc'], fn=af['id'])
+    ck.check(R3, 'three-paths', seen == {'in-pool', 'oversize', 'fresh-pool'}, f'allocate paths recognised: {sorted(seen)}', loc=af['loc'], fn=af['id'])
+
+    return {'S4': S4, 'af': af, 'NH': NH, 'F_STORAGE': F_STORAGE, 'srec': srec}
+
+
 def run(ck, F):
     ck.explanation = (
         'string_pool::intern, arena::make_string and arena::allocate are evaluated symbolically (all paths); the rule '
@@ -267,122 +390,8 @@ def run(ck, F):
         ck.check(R2b, inst, ok, msg, loc=loc, fn=fid)
 
     # ---------------------------------------------------------------- bounded write (E8)
-    R3 = ck.rule('C03.arena-bounds', 'the granule count suffices for header + n bytes for every n, the in-pool path is guarded by the '
-                 'remaining count, the fresh-pool path is reached only when the string fits a pool, the oversize block is large enough', floor=5)
-    af = F.need_fn(ALLOC)
-    S4 = Sym(F, opaque=lambda fid: F.fn.get(fid) is None, max_depth=20)
-    outs = S4.run(af['id'])
-    headersz = const_of(F, 'ipr::util::string::arena::headersz')
-    bufsz = const_of(F, 'ipr::util::string::arena::bufsz')
-    poolsz = const_of(F, 'ipr::util::string::arena::poolsz')
-    pad = const_of(F, 'ipr::util::string::padding_count')
-    if None in (headersz, bufsz, poolsz, pad):
-        raise AnalysisBroken(f'arena constants not folded: headersz={headersz} bufsz={bufsz} poolsz={poolsz} padding={pad}')
-    srec = F.need_rec('ipr::util::string')
-    fields = [(fl['name'], fl['t']) for fl in srec['fields']]
-    if len(fields) != 2 or fields[0][1] != 'long' or '[' not in fields[1][1]:
-        raise AnalysisBroken(f'layout of util::string changed (a long length followed by the inline bytes expected): {fields}')
-    off_data = 8                       # sizeof(long): data follows length (char8_t has alignment 1)
-    prec = F.need_rec('ipr::util::string::arena::pool')
-    pf = [(fl['name'], fl['t']) for fl in prec['fields']]
-    if len(pf) != 2 or not pf[0][1].rstrip().endswith('*') or '[' not in pf[1][1]:
-        raise AnalysisBroken(f'layout of arena::pool changed (a link followed by the header storage expected): {pf}')
-    F_STORAGE = pf[1][0]
-    F_NEXT = F.role_field('ipr::util::string::arena', lambda fl: fl['t'].replace('ipr::util::', '').rstrip() in ('string *', 'ipr::util::string *') or fl['t'].rstrip().endswith('string *'), 'next free header')
-    off_storage = 8
-    ck.extra['constants'] = {'headersz': headersz, 'bufsz': bufsz, 'poolsz': poolsz, 'padding_count': pad, 'offsetof(data)': off_data}
-    NH = ('fld', ('sym', 'this'), F_NEXT)
-
-    def le_facts(conds):
-        """(lhs, rhs, strict) with lhs <= rhs (or <) known on the path, whatever way the test was written."""
-        out = []
-        for c, val in conds:
-            if not (isinstance(c, tuple) and c and c[0] == 'op' and c[1] in ('<=', '<', '>=', '>')):
-                continue
-            op, x, y = c[1], c[2], c[3]
-            if not val:
-                op = {'<=': '>', '<': '>=', '>=': '<', '>': '<='}[op]
-            if op in ('>=', '>'):
-                x, y, op = y, x, {'>=': '<=', '>': '<'}[op]
-            out.append((x, y, op == '<'))
-        return out
-
-    # the in-pool path: nothing allocated, the old next_header returned, next_header advanced by the granule count
-    rets = [(st, v) for st, k, v in outs if k == 'return']
-    if len(rets) != len(outs):
-        ck.fail(R3, 'no-throw', 'arena::allocate can throw on a path', loc=af['loc'], fn=af['id'])
-    inpool = [(st, v) for st, v in rets if not any(named_call(t, 'operator new') for t in subterms(v))
-              and not any(named_call(t, 'operator new') for kv in st.symstore.items() for x in kv for t in subterms(x))]
-    if len(inpool) > 1:
-        # a path guarded by `granule count <= K` for a constant K below the smallest possible count is never taken
-        # (e.g. `remaining is 0 when there is no pool yet`): m = (n + c1)/d + c2 >= c2 for every n >= 0
-        def infeasible(st):
-            for x, y, strict in le_facts(st.conds):
-                gx = granules(x, N)
-                ly = linear(y, N)
-                if gx is not None and ly is not None and ly[0] == 0 and (ly[1] - (1 if strict else 0)) < gx[2]:
-                    return True
-            return False
-        inpool = [(st, v) for st, v in inpool if not infeasible(st)]
-        rets = [(st, v) for st, v in rets if not infeasible(st)]
-    if len(inpool) != 1:
-        raise AnalysisBroken(f'arena::allocate has {len(inpool)} paths that allocate nothing (1 expected)')
-    st0, v0 = inpool[0]
-    nh0 = st0.symstore.get(NH)
-    mterm = nh0[3] if isinstance(nh0, tuple) and nh0[0] == 'op' and nh0[1] == '+' and nh0[2] == NH else None
-    g = granules(mterm, N) if mterm is not None else None
-    if g is None:
-        raise AnalysisBroken('the in-pool path does not advance next_header by a granule count of the form (n + c1)/d + c2: '
-                             + (contracts.render(nh0, st0, {}) if nh0 else 'next_header unchanged'))
-    c1, d, c2 = g
-    ck.extra['granule_formula'] = f'm = (n + {c1})/{d} + {c2}'
-    ck.check(R3, 'granules-suffice', d == headersz and c1 >= 0 and d * c2 + c1 - (d - 1) >= off_data,
-             f'm = (n+{c1})/{d}+{c2} granules of {headersz} bytes: m*{d} >= n + {d * c2 + c1 - (d - 1)} but header+data need n + {off_data} '
-             f'(for every n: floor((n+c1)/d) >= (n+c1-(d-1))/d)', loc=af['loc'], fn=af['id'], detail={'c1': c1, 'd': d, 'c2': c2})
-    guards = [(x, y, strict) for x, y, strict in le_facts(st0.conds) if x == mterm]
-    okrem, txt = False, 'no test of the granule count against the remaining count'
-    for x, rem, strict in guards:
-        txt = contracts.render(rem, st0, {})
-        okrem = okrem or (rem[0] == 'op' and rem[1] == '-' and rem[3] == NH and F_STORAGE in txt and
-                          (linear(rem[2][3], N) == (0, bufsz) if rem[2][0] == 'op' else False))
-    ck.check(R3, 'in-pool', okrem and v0 == NH,
-             f'in-pool path: the granule count is bounded by {txt}; returns {contracts.render(v0, st0, {})}', loc=af['loc'], fn=af['id'])
-    seen = {'in-pool'}
-    for st, v in rets:
-        if (st, v) == inpool[0]:
-            continue
-        news = list({t for t in subterms(v) if named_call(t, 'operator new')})
-        if len(news) != 1:
-            ck.fail(R3, 'allocating path', f'a path of allocate returns {contracts.render(v, st, {})}, not storage of one fresh block',
-                    loc=af['loc'], fn=af['id'])
-            continue
-        sz = linear(news[0][3][0], N)
-        if sz is None:
-            raise AnalysisBroken('size of a fresh block is not linear in n: ' + contracts.render(news[0][3][0], st, {}))
-        # bounds on n known on this path
-        ub = [(linear(y, N)[1] - (1 if strict else 0)) for x, y, strict in le_facts(st.conds) if x == N and linear(y, N) and linear(y, N)[0] == 0]
-        lb = [(linear(x, N)[1] + (1 if strict else 0)) for x, y, strict in le_facts(st.conds) if y == N and linear(x, N) and linear(x, N)[0] == 0]
-        returns_storage = v[0] == 'fld' and v[2] == F_STORAGE and v[1] == ('deref', news[0])
-        if sz[0] == 0:
-            kind = 'fresh-pool'
-            seen.add(kind)
-            T = min(ub) if ub else None
-            nh = st.symstore.get(NH)
-            adv = isinstance(nh, tuple) and nh[0] == 'op' and nh[1] == '+' and nh[3] == mterm and nh[2] == v
-            ok = T is not None and (T + c1) // d + c2 <= bufsz and sz[1] >= off_storage + bufsz * headersz and returns_storage
-            ck.check(R3, kind, ok and adv,
-                     f'fresh-pool path (n <= {T if T is not None else "unbounded"}): needs m <= {(T + c1) // d + c2 if T is not None else "?"} of the '
-                     f'{bufsz} granules of a pool of {sz[1]} bytes; returns the storage of the new pool={returns_storage}; next_header advanced by m={adv}',
-                     loc=af['loc'], fn=af['id'])
-        else:
-            kind = 'oversize'
-            seen.add(kind)
-            need_extra = off_storage + off_data
-            ok = sz[0] >= 1 and sz[1] >= need_extra - (sz[0] - 1) * (min(lb) if lb else 0) and returns_storage
-            ck.check(R3, kind, ok,
-                     f'oversize path (n >= {min(lb) if lb else "?"}): block of {sz[0]}*n + {sz[1]} bytes, link + header + data need n + {need_extra}; '
-                     f'returns the storage of the new block={returns_storage}', loc=af['loc'], fn=af['id'])
-    ck.check(R3, 'three-paths', seen == {'in-pool', 'oversize', 'fresh-pool'}, f'allocate paths recognised: {sorted(seen)}', loc=af['loc'], fn=af['id'])
+    AB = arena_bounds(ck, F)
+    S4, af, NH, F_STORAGE, srec = AB['S4'], AB['af'], AB['NH'], AB['F_STORAGE'], AB['srec']
 
     # ---------------------------------------------------------------- the cursor stays inside the current pool
     R3c = ck.rule('C03.cursor-in-current-pool', 'after every path of allocate the cursor (next free header) points into the storage of the pool '
